@@ -268,6 +268,7 @@ pub fn run(ctx: &Ctx) -> Report {
         (p5_thin(), true),
         (p_gc(), true),
         (p_vectors(ctx.pick(2, 8)), false),
+        (p_vector_mutations(), false),
         (p_limits(!ctx.quick()), false),
         (p_paths(40), false),
     ];
